@@ -275,6 +275,12 @@ def crc16_of(interp, rope):
             ctx.assume(z3.And(cp >= 0, cp <= 65535))
         h, l = ops.elem_term(rope[-2]), ops.elem_term(rope[-1])
         ctx.assume((cp == 256 * h + l) == (t == 0))
+    if getattr(interp.cfg, "lia_branch", False):
+        # name the value: branch conditions on it become sequence-free (decided by the LIA abstraction)
+        c = ctx.fresh_int("crc")
+        ctx.assume(c == t)
+        ctx.assume(z3.And(c >= 0, c <= 65535))
+        return SInt(c, 0, 65535, 0)
     return SInt(t, 0, 65535, 0)
 
 
